@@ -6,7 +6,7 @@
 From Coq Require Import String.
 From Coq Require Import List Arith NArith Bool Lia.
 Import ListNotations.
-From YP Require Import Base.Str Engine.Resolve.
+From YP Require Import Base.Str Engine.Resolve Engine.ResolveProofs.
 Local Open Scope N_scope.
 
 (* ------------------------------------------------------------------ decimal printing is injective *)
@@ -185,4 +185,16 @@ Qed.
 Lemma mkkey_eqb_false n1 a1 n2 a2 : (n1, a1) <> (n2, a2) -> str_eqb (mkkey n1 a1) (mkkey n2 a2) = false.
 Proof.
   intros Hne. apply str_eqb_neq. intros H. apply mkkey_inj in H. destruct H; subst. congruence.
+Qed.
+
+(* a call name/N never sees what is filed under another name or another arity: assigning any
+   other name/arity key (register, load) leaves the resolution of name/N as it was *)
+Theorem resolve_set_other c name n name2 a2 v :
+  (name2, a2) <> (name, AFix n) -> (name2, a2) <> (name, AVar) ->
+  resolve (ctx_set c (mkkey name2 a2) v) name n = resolve c name n.
+Proof.
+  intros H1 H2. unfold resolve.
+  rewrite !ctx_get_set_other; [reflexivity | |].
+  - intros H. apply mkkey_inj in H. destruct H; subst. congruence.
+  - intros H. apply mkkey_inj in H. destruct H; subst. congruence.
 Qed.
